@@ -996,7 +996,7 @@ pub fn property() -> Property {
             PropSub {
                 name: "mutate",
                 strategy: mutate_strategy,
-                cases: |t| t.pick(600_000, 8_000_000),
+                cases: |t| t.pick(2_400_000, 16_000_000),
                 run: run_mutate,
                 floors: MUTATE_FLOORS,
             }
@@ -1004,7 +1004,7 @@ pub fn property() -> Property {
             PropSub {
                 name: "resign",
                 strategy: resign_strategy,
-                cases: |t| t.pick(30_000, 400_000),
+                cases: |t| t.pick(120_000, 800_000),
                 run: run_resign,
                 floors: &[("validated", 0.15), ("validated-nonempty", 0.10)],
             }
@@ -1012,7 +1012,7 @@ pub fn property() -> Property {
             PropSub {
                 name: "random",
                 strategy: random_strategy,
-                cases: |t| t.pick(300_000, 10_000_000),
+                cases: |t| t.pick(1_200_000, 20_000_000),
                 run: run_random,
                 floors: &[("pure-random", 0.2), ("seed-prefix", 0.2)],
             }
